@@ -366,6 +366,7 @@ Proof.
       assert (HI3 : Inv g c3) by (eapply Inv_handle_msg; eauto).
       destruct e3; [inversion H; subst; exact HI3 |].
       destruct (process_frags C c3 rest) as [[c4 o4] e4] eqn:Hp. inversion H; subst. eapply IH; eauto.
+    + destruct (process_frags C c1 rest) as [[c4 o4] e4] eqn:Hp. inversion H; subst. eapply IH; eauto.
 Qed.
 
 Lemma Inv_handle_content g c k c' o s : Inv g c -> handle_content C c k = (c', o, s) -> Inv g c'.
@@ -617,6 +618,7 @@ Proof.
       destruct e3; [inversion H; subst; discriminate |].
       destruct (process_frags C c3 rest) as [[c4 o4] e4] eqn:Hp. inversion H; subst.
       eapply IH; [exact Hp | eapply nf_handle_msg; eauto | reflexivity].
+    + destruct (process_frags C c1 rest) as [[c4 o4] e4] eqn:Hp. inversion H; subst. eapply IH; eauto.
 Qed.
 
 (* records: Failed is only ever reached together with the RErr status *)
